@@ -595,3 +595,29 @@ add("L1", "keep", UTIL, ARGS, "        if isinstance(index.dtype, pd.Categorical
 add("L2", "break", CORE, "GroupBy._maybe_squeeze_to_1d", "if n_values == 1 and isinstance(values, ArrayType1D)", "if n_values == 1 or isinstance(values, ArrayType1D)", name="L2 one-column frames squeezed too")
 add("L2", "break", CORE, "GroupBy._maybe_squeeze_to_1d", "if get_array_name(values) is None:", "if get_array_name(values) is not None:", name="L2 named inputs lose their name")
 add("L2", "break", CORE, "GroupBy._maybe_squeeze_to_1d", "result = result[result.columns[0]]", "result = result[result.columns[-1]].rename(None)", name="L2 wrong column / name always cleared", accept_error=True)
+
+# --------------------------------------------------------------------------------------------- round-2 rules (rules_z.py) and extensions
+add("W4", "break", NB, "_rolling_max_or_min_1d", "if group_full and need_recalc:", "if need_recalc:", name="W4 buffer rescanned before it is full")
+add("W4", "keep", NB, "_rolling_max_or_min_1d", "if group_full and need_recalc:", "if need_recalc and group_full:", name="W4 conjuncts swapped")
+add("W1", "break", NB, "_rolling_shift_or_diff_1d", "            pos = group_buffer_pos[key]\n", "            pos = group_counts[key] % window\n", also=((NB, "_rolling_shift_or_diff_1d", "            group_buffer_pos[key] = (pos + 1) % window\n", "            pass\n"),), name="W1 position derived from a counter that saturates at the window")
+add("E6", "break", EMAS, "ema_grouped", "        result = _ema_grouped(**nb_kwargs, alpha=alpha)\n", "        if ngroups == 1 and mask is None:\n            return _maybe_to_series(_ema_adjusted(values_arr, alpha))\n        result = _ema_grouped(**nb_kwargs, alpha=alpha)\n", name="E6 single-group fast path through the ungrouped kernel")
+add("E7", "break", EMAS, "_ema_grouped_timed", "last_seen_times = np.zeros(ngroups, dtype='int64')", "last_seen_times = np.zeros(ngroups, dtype='float64')", name="E7 float clock")
+add("E7", "keep", EMAS, "_ema_grouped_timed", "last_seen_times = np.zeros(ngroups, dtype='int64')", "last_seen_times = np.zeros(ngroups, dtype=np.int64)", name="E7 dtype spelled np.int64")
+add("P24", "break", EMAS, "_times_to_int_array", "    times, _ = _convert_timestamp_to_tz_unaware(times)\n    return times.view(np.int64)", "    return pd.DatetimeIndex(times).tz_localize(None).as_unit('ns').asi8", name="P24 zone dropped with tz_localize(None)")
+add("P24", "break", UTIL, "pretty_cut", "        numeric_bins = pd.to_timedelta(bins)\n", "        numeric_bins = pd.to_timedelta(bins).asi8\n", name="P24 .asi8 without unit normalisation", accept_error=True)
+add("P24", "keep", EMAS, "_times_to_int_array", "    times, _ = _convert_timestamp_to_tz_unaware(times)\n    return times.view(np.int64)", "    times, _ = _convert_timestamp_to_tz_unaware(times)\n    return pd.DatetimeIndex(times).as_unit('ns').asi8", name="P24 .asi8 after as_unit")
+add("M9", "break", CORE, ACROSS, "numba_funcs._build_target_for_groupby(results_one_value[0].dtype,", "numba_funcs._build_target_for_groupby(results[0].dtype,", name="M9 merge target typed by the first value column")
+add("D7c", "break", CORE, "GroupBy.var", "self.sum(values=values, **kwargs).to_numpy().astype(np.float64) ** 2", "self.sum(values=values, **kwargs).to_numpy() ** 2", name="D7c sums squared in their integer dtype")
+add("D7c", "keep", CORE, "GroupBy.var", "self.sum(values=values, **kwargs).to_numpy().astype(np.float64) ** 2", "self.sum(values=values, **kwargs).to_numpy().astype(float) ** 2", name="D7c astype(float)")
+add("P15b", "break", CORE, "add_row_margin", "data.groupby(level=other_levels, observed=True)", "data.groupby(level=other_levels, observed=False)", name="P15b subtotals over unobserved category combinations")
+add("P15b", "break", CORE, "add_row_margin", "out = data.reindex(new_index, fill_value=0)", "out = data.reindex(new_index)", name="P15b margin grid filled with NaN (float detour)")
+add("A3y", "break", CORE, "crosstab", "aggregation = grouper.size(mask=mask, margins=margin_levels)", "aggregation = grouper.size(mask=mask, margins=bool(margins))", name="A3y margins passed as a flag")
+add("P21", "break", CORE, "GroupBy._get_row_selection", "        value_list, value_names = convert_data_to_arr_list_and_keys(values)\n        common_index = _validate_input_lengths_and_indexes(value_list)\n", "        value_names, value_list, _, common_index = self._preprocess_arguments(values, mask=None)\n", name="P21 row selection through the aggregation pre-processor")
+add("P22", "break", UTIL, "check_if_func_is_non_reduce", "    if len(arr_in) == 1:\n        len_2 = len(func(np.tile(arr_in, 2), *args[1:]))\n    else:\n        len_2 = len(func(arr_in[:2], *args[1:]))\n", "    len_2 = len(func(arr_in[:2], *args[1:]))\n", name="P22 one-element probe not doubled")
+add("A9", "break", API, "SeriesGroupBy._from_by_keys", "                grouping_keys.append(by)\n", "                grouping_keys.append(by.reindex(obj.index) if isinstance(by, pd.Series) else by)\n", name="A9 facade re-aligns a Series key")
+add("D5b", "break", NANOPS, "reduce_1d", "chunks = output_converter(chunks)", "chunks = output_converter(np.asarray(chunks).astype(arr.dtype))", name="D5b chunk results cast back to the input dtype")
+add("P23", "break", UTIL, "bools_to_categorical", "bit_mask = nb_dot(df, ", "bit_mask = nb_dot(df.loc[:, df.any()], ", name="P23 packed frame differs from the decoded frame")
+add("S5", "break", CORE, "GroupBy._chunk_offsets", "return np.cumsum(self._group_key_lengths[:-1])", "return np.cumsum(self._group_key_lengths[:-1])\n\n    @cached_property\n    def _group_key_chunks(self):\n        return _val_to_numpy(self._group_ikey, as_list=True)", name="S5 new cache of the code chunks", expect_func="*")
+add("S3b", "break", CORE, INIT, "            self._group_key_pointers = group_keys._group_key_pointers\n", "", also=((CORE, INIT, "        if isinstance(group_keys, GroupBy):", "        self._group_key_pointers = None\n        if isinstance(group_keys, GroupBy):"),), name="S3b pointer tables defaulted before the copy branch, not copied")
+add("L1", "break", UTIL, ARGS, "    return pd.core.sorting.lexsort_indexer(codes_for_sorting)", "    if index.is_monotonic_increasing:\n        return slice(None)\n    return pd.core.sorting.lexsort_indexer(codes_for_sorting)", name="L1 multi-level shortcut on pandas monotonicity")
+add("A1", "break", CORE, "GroupBy.ema", "        value_names, value_list, type_list, common_index = self._preprocess_arguments(values, mask)\n", "        if mask is not None:\n            mask = np.asarray(mask)\n        value_names, value_list, type_list, common_index = self._preprocess_arguments(values, mask)\n", name="A1 mask re-bound to an index-free array before validation", expect_func="*")
